@@ -156,7 +156,8 @@ theorem C01_with (ds : Dataset) (hwf : WFData ds) (p : Params) (hmw : 0 ≤ p.mi
 theorem singleReverse_emits {cx : Ctx} (usable : Nat → Bool)
     (hs : SortedRev cx.cs.rev) (hm : ArrMono cx.cs.rev) (hmw : 0 ≤ cx.p.minWait)
     (hclean : CleanupPreserves cx cx.cs.rev) {r : Route} (h : singleReverse cx usable = .ok r) :
-    ∃ bd j, r = emit cx.ds cx.p.minWait bd j ∧ JourneyOK cx cx.cs.rev bd j := by
+    ∃ bd j, r = emit cx.ds cx.p.minWait bd j ∧ JourneyOK cx cx.cs.rev bd j ∧
+      0 ≤ bd ∧ cx.arrT - bd ≤ cx.p.maxTotal ∧ (cx.depT ≠ -1 → cx.depT ≤ bd) := by
   unfold singleReverse at h
   cases hl : lookupPos (revLookup cx.cs.rev cx.cs.revIdx (hourOf cx.arrT + 1)) with
   | none => rw [hl] at h; cases h
@@ -179,7 +180,8 @@ theorem calculateSingleWith_emits (ds : Dataset) (cs : ConnSet) (p : Params) (ac
     (hs : SortedRev cs.rev) (hm : ArrMono cs.rev) (hmw : 0 ≤ p.minWait)
     (hclean : ∀ depT arrT, CleanupPreserves (mkCtx ds p cs accessFoot egressFoot depT arrT) cs.rev)
     {r : Route} (h : calculateSingleWith ds cs p accessFoot egressFoot = .ok r) :
-    ∃ depT arrT bd j, r = emit ds p.minWait bd j ∧ JourneyOK (mkCtx ds p cs accessFoot egressFoot depT arrT) cs.rev bd j := by
+    ∃ depT arrT bd j, r = emit ds p.minWait bd j ∧ JourneyOK (mkCtx ds p cs accessFoot egressFoot depT arrT) cs.rev bd j ∧
+      0 ≤ bd ∧ (p.forward = true → p.time ≤ bd) ∧ (p.forward = false → p.time - bd ≤ p.maxTotal) := by
   unfold calculateSingleWith at h
   split at h
   · cases h
@@ -187,8 +189,9 @@ theorem calculateSingleWith_emits (ds : Dataset) (cs : ConnSet) (p : Params) (ac
     · cases h
     · split at h
       · cases h
-      · split at h
-        · simp only at h
+      · by_cases hfwd : p.forward = true
+        · rw [if_pos hfwd] at h
+          simp only at h
           split at h
           · cases h
           · split at h
@@ -196,12 +199,20 @@ theorem calculateSingleWith_emits (ds : Dataset) (cs : ConnSet) (p : Params) (ac
             · split at h
               · cases h
               · rename_i bestArr _ _
-                obtain ⟨bd, j, h1, h2⟩ := singleReverse_emits
+                obtain ⟨bd, j, h1, h2, h3, _, h5⟩ := singleReverse_emits
                   (cx := { mkCtx ds p cs accessFoot egressFoot p.time (-1) with arrT := bestArr })
                   _ hs hm hmw (hclean p.time bestArr) h
-                exact ⟨p.time, bestArr, bd, j, h1, h2⟩
-        · obtain ⟨bd, j, h1, h2⟩ := singleReverse_emits (cx := mkCtx ds p cs accessFoot egressFoot (-1) p.time)
+                refine ⟨p.time, bestArr, bd, j, h1, h2, h3, ?_, ?_⟩
+                · intro _
+                  by_cases hd : p.time = -1
+                  · omega
+                  · exact h5 hd
+                · intro hf; rw [hf] at hfwd; cases hfwd
+        · rw [if_neg hfwd] at h
+          obtain ⟨bd, j, h1, h2, h3, h4, _⟩ := singleReverse_emits (cx := mkCtx ds p cs accessFoot egressFoot (-1) p.time)
             _ hs hm hmw (hclean (-1) p.time) h
-          exact ⟨-1, p.time, bd, j, h1, h2⟩
+          refine ⟨-1, p.time, bd, j, h1, h2, h3, ?_, ?_⟩
+          · intro hf; exact absurd hf hfwd
+          · intro _; exact h4
 
 end Tr
